@@ -7,6 +7,7 @@ import (
 	"fmt"
 	"math/big"
 	"strings"
+	"time"
 
 	"github.com/libsv/go-bk/bec"
 	"github.com/libsv/go-bk/crypto"
@@ -82,6 +83,12 @@ type c20Flow struct {
 	// SellerQuoteExtra: the quote the seller validates a bid against (ExpectedFQ) asks this many
 	// satoshis more per Quote.Bytes than the quote the bidder built the bid with
 	SellerQuoteExtra int `json:"seller_quote_extra_sat,omitempty"`
+	// BuyerKeys: the funding coins are locked to this many different keys of the buyer's wallet
+	// (coin i to key i mod BuyerKeys), each coin carrying the unlocker of its own key; 0, 1: one key
+	BuyerKeys int `json:"buyer_wallet_keys,omitempty"`
+	// CtxDone: the context handed to the flow is 1 already cancelled, 2 past its deadline
+	// (whatever a flow returns as completed must be a completed transaction)
+	CtxDone int `json:"context_done,omitempty"`
 }
 
 type c20Inscr struct {
@@ -154,6 +161,16 @@ func outKey(txid []byte, vout uint32) string { return fmt.Sprintf("%x:%d", txid,
 func c20JudgeFlow(c *mon.Ctx, f *c20Flow) {
 	c.Eval(1)
 	ctx := context.Background()
+	switch f.CtxDone {
+	case 1:
+		cctx, cancel := context.WithCancel(ctx)
+		cancel()
+		ctx = cctx
+	case 2:
+		dctx, cancel := context.WithDeadline(ctx, time.Unix(1, 0))
+		defer cancel()
+		ctx = dctx
+	}
 	seller, _ := bec.PrivKeyFromBytes(bec.S256(), f.SellerKey)
 	buyer, _ := bec.PrivKeyFromBytes(bec.S256(), f.BuyerKey)
 	sellerScript, buyerScript := p2pkhOf(seller), p2pkhOf(buyer)
@@ -216,9 +233,20 @@ func c20JudgeFlow(c *mon.Ctx, f *c20Flow) {
 				id, vout = append([]byte{}, f.OrdTxID...), f.OrdVout+1
 			}
 		}
-		u := &bt.UTXO{TxID: id, Vout: vout, LockingScript: bscript.NewFromBytes(append([]byte{}, *buyerScript...)), Satoshis: v, Unlocker: &buyerUnlocker}
+		coinScript, coinUnlocker := buyerScript, &buyerUnlocker
+		if f.BuyerKeys > 1 && i%f.BuyerKeys != 0 { // another key of the buyer's wallet, with its own unlocker
+			kb := crypto.Sha256(append(append([]byte{}, f.BuyerKey...), byte(i%f.BuyerKeys)))
+			kb[0] &= 0x7f
+			k, _ := bec.PrivKeyFromBytes(bec.S256(), kb)
+			var ku bt.Unlocker = &unlocker.Simple{PrivateKey: k}
+			if f.Wallet&2 != 0 {
+				ku = &c20Wallet{k}
+			}
+			coinScript, coinUnlocker = p2pkhOf(k), &ku
+		}
+		u := &bt.UTXO{TxID: id, Vout: vout, LockingScript: bscript.NewFromBytes(append([]byte{}, *coinScript...)), Satoshis: v, Unlocker: coinUnlocker}
 		utxos = append(utxos, u)
-		coins[outKey(id, u.Vout)] = c20Coin{v, append([]byte{}, *buyerScript...)}
+		coins[outKey(id, u.Vout)] = c20Coin{v, append([]byte{}, *coinScript...)}
 	}
 	fq := mkQuote(f.Quote)
 	sellerQ := f.Quote
@@ -662,6 +690,10 @@ func init() {
 			f.Wallet = prng.Pick(r, []int{0, 0, 1, 2, 3, 3})
 			f.OneScriptObject = f.ChangeLen == 25 && i%5 == 3
 			f.AcceptTwice = i%7 == 2 || i%7 == 5
+			f.BuyerKeys = prng.Pick(r, []int{0, 0, 2, 3})
+			if i%11 == 7 {
+				f.CtxDone = 1 + int(i/11)%2
+			}
 			if (f.Flow == "bid" || f.Flow == "bid-2d") && i%3 == 1 {
 				// a little more than the bidder's rate: at least one satoshi more per Quote.Bytes, at most a tenth more
 				f.SellerQuoteExtra = 1 + int(i/12)%(1+f.Quote.Sat/10)
